@@ -157,6 +157,11 @@ def gen(rng, tier):
             t = nested(rng, n, leaf)
             meta = {"kind": "default-entry", "D": 32, "text": t, "chunks": None, "flags": 0, "entry": "V"}
             out.append((line(32, 0, ["V" + hx(t), "W" + hx(t)]), meta))
+    # hostile: one number token longer than a thread's stack (the parser's memory use for a token is heap, bounded by
+    # the token; nothing on the call stack may grow with it).  Not modelled (see drv_tok.ml): judged by the outcome.
+    for ln in ((9 << 20),) if tier == "quick" else ((9 << 20), (17 << 20)):
+        t = b"[1." + b"7" * ln + b"e-3]"
+        out.append((line(32, 0, ["P" + hx(t), "P" + hx(b" ")]), {"kind": "hostile-long-number", "D": 32, "text": b"[1.7e-3]", "chunks": [len(t), 1], "flags": 0}))
     # hostile: only openers, very long
     for D in (1, 2, 32):
         for opener in (b"[", b'{"a":'):
